@@ -28,3 +28,4 @@ def rules(ctx):
     S.loop_completeness_rules(ctx)
 
     S.compaction_target_rules(ctx)
+    S.system_freed_store_rules(ctx)
